@@ -264,12 +264,17 @@ func init() {
 		// ---- readLine: the line limit
 		var lineLimit int64
 		lineOK := false
+		lineGuard := ""
 		if fd := FuncDecl(hd, "", "readLine"); fd != nil {
 			ast.Inspect(fd.Body, func(n ast.Node) bool {
-				if is, ok := n.(*ast.IfStmt); ok && Src(is.Cond) == "len(line)+len(l) > maxLineLength" && len(is.Body.List) == 1 {
+				if is, ok := n.(*ast.IfStmt); ok && (Src(is.Cond) == "len(line)+len(l) > maxLineLength" || Src(is.Cond) == "len(line)+len(l) >= maxLineLength") && len(is.Body.List) == 1 {
 					if r, ok := is.Body.List[0].(*ast.ReturnStmt); ok && len(r.Results) == 2 && Src(r.Results[1]) != "nil" {
-						if v, ok := evalInt(&ast.Ident{Name: "maxLineLength"}, hd); ok {
+						if v, ok := evalInt(&ast.Ident{Name: "maxLineLength"}, hd); ok && v > 0 {
 							lineLimit, lineOK = v, true
+							lineGuard = Src(is.Cond)
+							if strings.Contains(lineGuard, ">=") {
+								lineLimit = v - 1 // `>= L` refuses exactly what `> L-1` refuses
+							}
 						}
 					}
 				}
@@ -287,7 +292,7 @@ func init() {
 					})
 					return p
 				}
-				g, ret, app := pos("if len(line)+len(l) > maxLineLength"), pos("if line == nil && !more"), pos("line = append(line, l...)")
+				g, ret, app := pos("if "+lineGuard), pos("if line == nil && !more"), pos("line = append(line, l...)")
 				if !(g != 0 && ret != 0 && app != 0 && g < ret && g < app) {
 					e.Unknown("readLine: limit check is not ahead of the returns")
 					lineOK = false
@@ -296,19 +301,20 @@ func init() {
 		} else {
 			e.Unknown("readLine")
 		}
-		e.P("/-- header.go `readLine`: `if len(line)+len(l) > maxLineLength { return .., err }` ahead of every use of the fragment; the value of maxLineLength (none: no such guard) -/")
+		e.P("/-- header.go `readLine`: `if len(line)+len(l) > maxLineLength { return .., err }` ahead of every use of the fragment; the largest accepted line length (maxLineLength, or maxLineLength-1 when the guard says `>=`; none: no such guard) -/")
 		e.P("def lineLimit : Option Nat := %s", optNat(lineOK, lineLimit))
 
 		// ---- body: contentLength limit + ReadFull error returned, used by both readers
 		var bodyLimit int64
 		bodyOK := false
 		if fd := FuncDecl(hd, "Header", "contentLength"); fd != nil {
-			hasRange, hasMax := false, false
+			hasRange, hasMax, bodyGE := false, false, false
 			ast.Inspect(fd.Body, func(n ast.Node) bool {
 				if is, ok := n.(*ast.IfStmt); ok {
 					c := Src(is.Cond)
-					if c == "n > maxBodyLength" && len(is.Body.List) == 1 && strings.HasPrefix(Src(is.Body.List[0]), "return 0, err") {
+					if (c == "n > maxBodyLength" || c == "n >= maxBodyLength") && len(is.Body.List) == 1 && strings.HasPrefix(Src(is.Body.List[0]), "return 0, err") {
 						hasMax = true
+						bodyGE = c == "n >= maxBodyLength"
 					}
 					if strings.Contains(c, "strconv.ErrRange") && len(is.Body.List) == 1 && strings.HasPrefix(Src(is.Body.List[0]), "return 0, err") {
 						hasRange = true
@@ -322,8 +328,11 @@ func init() {
 				return true
 			})
 			if hasRange && hasMax {
-				if v, ok := evalInt(&ast.Ident{Name: "maxBodyLength"}, hd); ok {
+				if v, ok := evalInt(&ast.Ident{Name: "maxBodyLength"}, hd); ok && v > 0 {
 					bodyLimit, bodyOK = v, true
+					if bodyGE {
+						bodyLimit = v - 1
+					}
 				}
 			}
 		}
